@@ -150,15 +150,21 @@ Definition F_S_HDR_CE := bs "hdr:content-encoding".
 Definition is_producer (o : cop) : bool :=
   match o with OWrite _ | OWriteAll _ | OFlush | OAbort | ODropWriter => true | _ => false end.
 (* results and end-of-stream samples of the producer's operations only *)
-Fixpoint cmp_producer (idx : N) (ops : list cop) (m o : list val) : list val :=
+(* Once the body has been dropped, C11 fixes only that a flush of buffered bytes and a chunk-completing write
+   fail (its own oracle clauses); whether the other producer calls still succeed is the implementation's
+   business: from there on the results go under their own field name *)
+Definition F_S_WRES_GONE := bs "op.wres.after-body-drop".
+Fixpoint cmp_producer_g (gone : bool) (idx : N) (ops : list cop) (m o : list val) : list val :=
   match ops, m, o with
   | op :: ops', VL [mr; _; _; me] :: m', VL [orr; _; _; oe] :: o' =>
       (if is_producer op
-       then cmp_field F_S_WRES (VL [VN idx; mr]) (VL [VN idx; orr]) ++ cmp_field F_S_WEOS (VL [VN idx; me]) (VL [VN idx; oe])
+       then cmp_field (if gone then F_S_WRES_GONE else F_S_WRES) (VL [VN idx; mr]) (VL [VN idx; orr])
+            ++ (if gone then [] else cmp_field F_S_WEOS (VL [VN idx; me]) (VL [VN idx; oe]))
        else [])
-      ++ cmp_producer (idx + 1) ops' m' o'
+      ++ cmp_producer_g (gone || match op with ODropReader => true | _ => false end) (idx + 1) ops' m' o'
   | _, _, _ => []
   end.
+Definition cmp_producer := cmp_producer_g false.
 (* what the consumer received over the history: the data, and the first terminal event
    (0 none, 1 clean end, 2 error, 3 panic) *)
 Fixpoint received (rs : list val) : bytes * N :=
@@ -497,8 +503,22 @@ Definition run_stream (v : val) : val :=
                 if gz && has_writer i then
                   match s_gz i with
                   | [] => []                       (* cases recorded before the shadow encoder existed *)
-                  | es => firstn 3 (cmp_field F_S_GZ (VL (merge_frames (gz_model_results s0 (GGz encq []) es)))
-                                              (VL (merge_frames (map (fun o => match o with VL (r :: _) => r | x => x end) ores))))
+                  | es =>
+                      (* compared: the bytes delivered over the whole history, the first terminal event, and the
+                         results of the producer's calls -- not frame boundaries nor at which poll a byte arrives *)
+                      let mres := gz_model_results s0 (GGz encq []) es in
+                      let ores1 := map (fun o => match o with VL (r :: _) => r | x => x end) ores in
+                      let wrap := map (fun r => VL [r]) in
+                      let nonpoll := fun (rs : list val) => map snd (filter (fun p => match fst p with GzP _ => false | _ => true end) (combine es rs)) in
+                      let (mb, mk) := received (wrap mres) in
+                      let (ob, ok) := received (wrap ores1) in
+                      (* a history that did not reach a terminal event on both sides: how much has arrived by its
+                         last poll depends on the framing, so only prefix-compatibility is required of the bytes *)
+                      let bytes_agree := if (negb (mk =? 0)) && (negb (ok =? 0)) then beq_bytes mb ob
+                                         else starts_with mb ob || starts_with ob mb in
+                      firstn 3 ((if bytes_agree then [] else cmp_field F_S_GZ (VB mb) (VB ob))
+                                ++ (if (mk =? 0) || (ok =? 0) then [] else cmp_field F_S_GZ (VN mk) (VN ok))
+                                ++ cmp_field F_S_GZ (VL (nonpoll mres)) (VL (nonpoll ores1)))
                   end
                 else [] in
               let model_part := gz_part ++ if gz then [] else firstn 12 (cmp_results 0 0 0 mres ores)
